@@ -65,11 +65,11 @@ pub fn oracle(case: &Case) -> Outcome {
 
 pub fn run(ctx: &Ctx) {
     ctx.replay_findings(&oracle);
-    ctx.search("hostile-histories", ctx.n(40_000, 1_500_000), &gen::hostile_case, &oracle);
+    ctx.search("hostile-histories", ctx.n(400_000, 12_000_000), &gen::hostile_case, &oracle);
     let cfg = gen::StreamCfg::small(gen::Mix { fixed: 2, v9: 2, ipfix: 2 });
     ctx.search(
         "conformant-chained",
-        ctx.n(10_000, 300_000),
+        ctx.n(100_000, 3_000_000),
         &move || gen::conformant_case(cfg, gen::BuildOpts { count_by_flowsets: true, ..gen::BuildOpts::WIDE }),
         &oracle,
     );
